@@ -46,6 +46,9 @@ func lifeAlpha(o AlphaOpts) func(sc *Scenario, v *View) []Action {
 			if r == nil {
 				continue
 			}
+			if len(r.Provider) != 20 {
+				continue // only 20-byte addresses can sign a message on a real chain
+			}
 			for _, k := range o.RespKinds {
 				out = append(out, actRespond(id, r.Provider, k))
 			}
